@@ -25,7 +25,7 @@ CfgsGen ==
    Mk(0, <<>>, B(TRUE, 1, 1, 1, 0, 0, 0, TRUE, FALSE)), Mk(1, <<>>, B(TRUE, 1, 2, 1, 1, 1, 1, TRUE, FALSE)),
    Mk(2, <<1>>, B(TRUE, 1, 1, 2, 0, 1, 1, FALSE, FALSE))}
 CfgsLiveQ == {Mk(2, <<>>, B(FALSE, 1, 1, 1, 1, 1, 1, FALSE, FALSE))}
-CfgsLive == {Mk(n, <<>>, B(FALSE, 2, 2, 1, 1, 1, 1, FALSE, FALSE)) : n \in {2, 3}}
+CfgsLive == {Mk(2, <<>>, B(FALSE, 2, 1, 1, 1, 1, 1, FALSE, FALSE)), Mk(3, <<>>, B(FALSE, 1, 1, 1, 0, 0, 1, FALSE, FALSE))}
 
 ExportOK == ExportEnd => PrintT("VEC " \o ToJson([cfg |-> cfg, hist |-> hist']))
 =============================================================================
